@@ -358,16 +358,23 @@ def to_sympy(node: ast.AST, env: Dict[str, Any], funcs: Optional[Dict[str, Calla
                 return a ** b
         if isinstance(n, ast.Call):
             name = dotted(n.func)
+
+            def lazy(a):
+                # shape/dim arguments (tuples, keywords) are not algebraic: handlers that ignore them get None
+                try:
+                    return rec(a)
+                except AnalysisError:
+                    return None
             if name in funcs:
-                return funcs[name]([rec(a) for a in n.args], n)
+                return funcs[name]([rec(n.args[0])] + [lazy(a) for a in n.args[1:]] if n.args else [], n)
             if isinstance(n.func, ast.Attribute):
                 key = "." + n.func.attr
                 if key in funcs:
-                    return funcs[key]([rec(n.func.value)] + [rec(a) for a in n.args], n)
+                    return funcs[key]([rec(n.func.value)] + [lazy(a) for a in n.args], n)
             if name is not None:
                 base = name.split(".")[-1]
                 if ("*." + base) in funcs:
-                    return funcs["*." + base]([rec(a) for a in n.args], n)
+                    return funcs["*." + base]([lazy(a) for a in n.args], n)
         if isinstance(n, ast.Subscript):
             if "[]" in funcs:
                 return funcs["[]"](n, rec)
